@@ -215,8 +215,8 @@ PROPS = {
     "C05": dict(
         title="Algorithm results equal the documented function",
         batches=[
-            B("w_expr.cpp", "expr", quick=14, thorough=240, params="faults=1", oracles=["c05."]),
-            B("w_expr.cpp", "expr", quick=8, thorough=120, params="faults=0", oracles=["c05."]),
+            B("w_expr.cpp", "expr", quick=14, thorough=240, params="faults=1", oracles=["c05."] + RT_MEM),
+            B("w_expr.cpp", "expr", quick=8, thorough=120, params="faults=0", oracles=["c05."] + RT_MEM),
             B("w_expr.cpp", "expr", quick=8, thorough=120, params="faults=0,wany=1", oracles=["c05.", "c01.", "c02.", "c04."] + RT_LIVE),
             B("w_expr.cpp", "expr", quick=6, thorough=90, params="faults=1,wany=1", oracles=["c05.", "c01.", "c02.", "c04."] + RT_LIVE),
             B("w_expr.cpp", "expr", quick=6, thorough=90, params="faults=1,more=1", oracles=["c05.", "c01.", "c02.", "c04."] + RT_LIVE),
@@ -352,6 +352,7 @@ PROPS = {
         batches=[
             B("w_stream.cpp", "stream", quick=14, thorough=240, oracles=["c13.", "c01.", "c02."] + RT_ALL),
             B("w_stream.cpp", "stream", cfg="S17r", quick=6, thorough=90, oracles=["c13.", "c01.", "c02."] + RT_ALL),
+            B("w_stream.cpp", "stream", params="rthrow=1", quick=5, thorough=60, oracles=["c13.", "c01.", "c02."] + RT_ALL),
             B("w_streamlib.cpp", "streamlib", quick=6, thorough=90, oracles=["c13.", "c01.", "c02.", "c07.early", "c11.via"] + RT_ALL),
             B("w_streamlib.cpp", "streamlib", cfg="S17r", quick=3, thorough=45, oracles=["c13.", "c01.", "c02.", "c07.early", "c11.via"] + RT_ALL),
         ],
@@ -364,7 +365,8 @@ PROPS = {
                     "a prefix of (and without stop/trigger exactly) the sequence the adaptor's definition prescribes, in order; the result is the "
                     "fold over precisely those elements, an error only if the source failed, never done; per underlying stream whose next() was "
                     "started: cleanup() exactly once, after the outstanding next() completed and before the consumer's result; next() operations "
-                    "never overlap; child op states are never destroyed while running; shadow memory and leak checks. "
+                    "never overlap; child op states are never destroyed while running; shadow memory and leak checks. The rthrow=1 batch lets the reducer "
+                    "throw at a drawn element: the consumer must get that error, after cleanup() has run exactly once. "
                     "w_streamlib drives the library's own sources and the remaining adaptors: fifteen pipelines over range_stream, single, "
                     "never_stream - transform, filter, take_until(never_stream | range, trigger gate), delay, via_stream, typed_via_stream, "
                     "on_stream, next_adapt_stream, cleanup_adapt_stream, stop_immediately, type_erase, stop_immediately(delay) - consumed by "
@@ -384,7 +386,7 @@ PROPS = {
             B("w_erase.cpp", "any_object", quick=6, thorough=90, oracles=["c18."] + RT_ALL),
             B("w_erase.cpp", "any_unique", quick=3, thorough=45, oracles=["c18."] + RT_ALL),
             B("w_expr.cpp", "expr", quick=10, thorough=150, params="faults=1,wrap=1", oracles=["c18.", "c05.outcome", "c01.", "c04.child-not-stopped", "c04.started-after-stop", "c12.query"] + RT_LIVE),
-            B("w_stream.cpp", "stream", quick=5, thorough=60, oracles=["c13.", "c01."] + RT_LIVE),
+            B("w_stream.cpp", "stream", quick=5, thorough=60, oracles=["c13.", "c01."] + RT_ALL),
             B("w_anysnd.cpp", "anysnd_sim", quick=4, thorough=60, oracles=["c18.", "c01.", "c02.", "c04."] + RT_ALL),
             B("w_anysnd.cpp", "anysnd_inplace", quick=3, thorough=45, oracles=["c18.", "c01.", "c02.", "c04."] + RT_ALL),
             B("w_anysnd.cpp", "anysnd_sim", cfg="S17r", quick=3, thorough=45, oracles=["c18.", "c01.", "c02.", "c04."] + RT_ALL),
@@ -481,7 +483,7 @@ PROPS = {
             B("w_expr.cpp", "expr", cfg="S20d", quick=6, thorough=90, params="faults=1", oracles=["c20."]),
             B("w_expr.cpp", "expr", cfg="S20r", quick=0, thorough=90, params="faults=1", oracles=["c01.", "c02.", "c04.", "c05.", "c12.", "c20."] + RT_ALL),
             B("w_expr.cpp", "expr", cfg="S17d", quick=0, thorough=90, params="faults=1", oracles=["c01.", "c02.", "c04.", "c05.", "c12.", "c20."] + RT_ALL),
-            B("w_expr.cpp", "expr", cfg="S17rv", quick=0, thorough=60, params="faults=1", oracles=["c01.", "c02.", "c04.", "c05.", "c12.", "c20."] + RT_ALL),
+            B("w_expr.cpp", "expr", cfg="S17rv", quick=4, thorough=60, params="faults=1", oracles=["c01.", "c02.", "c04.", "c05.", "c12.", "c20."] + RT_ALL),
             B("w_expr.cpp", "expr", cfg="S20dv", quick=4, thorough=60, params="faults=1", oracles=["c01.", "c02.", "c04.", "c05.", "c12.", "c20."] + RT_ALL),
             B("w_stream.cpp", "stream", cfg="S17d", quick=0, thorough=60, oracles=["c13.", "c01.", "c02."] + RT_ALL),
             B("w_coro.cpp", "coro", cfg="S20rv", quick=0, thorough=60, oracles=["c10.", "c11.", "c01.", "c02."] + RT_ALL),
